@@ -14,19 +14,16 @@ HERE="$(cd "$(dirname "$0")" && pwd)"
 cd "$HERE/sim" || exit 2
 cp -f /repo/go.sum go.sum 2>/dev/null
 mkdir -p "$HERE/bin"
-# E4 properties need the race-enabled test binary
-case "$PROP" in
-  C18|C19) NEED_E4=1 ;;
-  *) NEED_E4=0 ;;
-esac
-if ! $GO build -tags verif -o "$HERE/bin/vsim" ./cmd/vsim >"$HERE/bin/build.log" 2>&1; then
-  echo "INFRA: build of vsim failed"; cat "$HERE/bin/build.log"; exit 2
-fi
-EXTRA=()
-if [ "$NEED_E4" = 1 ] && [ -d "$HERE/sim/e4" ]; then
+if [ "$PROP" = C18 ]; then
+  # E4, the schedule simulator, is a race-enabled test binary (synctest needs a *testing.T)
   if ! $GO test -c -race -tags verif -o "$HERE/bin/e4.test" ./e4 >"$HERE/bin/build-e4.log" 2>&1; then
     echo "INFRA: build of e4.test failed"; cat "$HERE/bin/build-e4.log"; exit 2
   fi
-  EXTRA=(-worker-exe "$HERE/bin/e4.test")
+  export VSIM_ARGS="[\"check\",\"-p\",\"$PROP\",\"-tier\",\"$TIER\"]"
+  "$HERE/bin/e4.test" -test.run='^TestE4$' -test.timeout=0 -test.count=1 | grep -v -E '^(--- FAIL: TestE4|FAIL$|PASS$|ok |exit status|\s+testing\.go:[0-9]+: race detected)'
+  exit "${PIPESTATUS[0]}"
 fi
-exec "$HERE/bin/vsim" check -p "$PROP" -tier "$TIER" "${EXTRA[@]}"
+if ! $GO build -tags verif -o "$HERE/bin/vsim" ./cmd/vsim >"$HERE/bin/build.log" 2>&1; then
+  echo "INFRA: build of vsim failed"; cat "$HERE/bin/build.log"; exit 2
+fi
+exec "$HERE/bin/vsim" check -p "$PROP" -tier "$TIER"
